@@ -25,6 +25,7 @@ RULE = (
     "every label computed alone, calendar shifts -1990 / +7 / +100000, impulse response vs closed-form survival "
     "column x interval length; superposition and scaling also with ONE lifetime model object shared by all stocks of the relation; per-cohort parameters alternating between every other (lifetime, grid) and a non-monotone pattern whose first and last cohort coincide; stock-driven models with one degenerate label (zero survival of the own interval) next to healthy ones, every healthy label vs computed alone. Non-trivial = relation evaluated on a well-conditioned configuration. Distinct by "
     "construction."
+    " Also: one lifetime model object shared by all stocks of a relation, relations against stocks with a past, non-monotone per-cohort parameters, a degenerate neighbour label, sub-annual grids."
 )
 ASSUMPTIONS = [
     "relations compared with 1e-10 relative tolerance (measured <= 1e-15); stock-driven kept when first-interval survival >= 0.05",
